@@ -652,6 +652,88 @@ def parse_heaps():
     return create, recycle, enum_map
 
 
+ENUMHPP = 'libs/pika/coroutines/include/pika/coroutines/thread_enums.hpp'
+
+
+def parse_current_resolution():
+    """thread_queue::create_thread: where `thread_stacksize::current` is replaced by the class of the creating task,
+    relative to the `if (data.run_now)` split into the immediate and the staged creation path; and the class
+    get_self_stacksize_enum() reports when the caller is not a pika thread"""
+    tq = strip_comments(strip_pp(gen.read(TQHPP)))
+    _, body = func(tq, r'\bvoid\s+create_thread\s*\(', 'thread_queue::create_thread')
+    b = nows(body)
+    res = 'if(data.stacksize==execution::thread_stacksize::current){data.stacksize=threads::detail::get_self_stacksize_enum();}'
+    split = 'if(data.run_now){'
+    if b.count(split) != 1:
+        fail('thread_queue::create_thread: expected exactly one `if (data.run_now) {` split')
+    s0 = b.index(split)
+    s1 = balanced(b, s0 + len(split) - 1, '{', '}')
+    # the run_now block must leave the function (otherwise the code after it is not "the staged path only")
+    if not b[s0:s1].rstrip('}').endswith('return;'):
+        fail('thread_queue::create_thread: the run_now block no longer ends with return')
+    occ = [m.start() for m in re.finditer(re.escape(res), b)]
+    if len(re.findall(r'data\.stacksize=(?!=)', b)) != len(occ):
+        fail('thread_queue::create_thread: data.stacksize is assigned in a way the translator does not know')
+    before = [i for i in occ if i < s0]
+    inside = [i for i in occ if s0 <= i < s1]
+    after = [i for i in occ if i >= s1]
+    for i in before + after:
+        # must be a top-level statement of the function body (brace depth 0)
+        if b[:i].count('{') != b[:i].count('}') + (0 if i < s0 else 0):
+            fail('thread_queue::create_thread: the resolution of `current` is nested inside another block')
+    if before and not inside and not after:
+        site = 'CurBeforeSplit'
+    elif inside and not before and not after:
+        site = 'CurRunNowOnly'
+    elif after and not before and not inside:
+        site = 'CurStagedOnly'
+    elif not occ:
+        site = 'CurNever'
+    else:
+        fail('thread_queue::create_thread: `current` is resolved at several places (%d before / %d inside / %d after the run_now block)'
+             % (len(before), len(inside), len(after)))
+    # create_thread_object is reached from the run_now block (creator's context) and from add_new (converting worker)
+    if 'create_thread_object(thrd,data,lk);' not in b[s0:s1]:
+        fail('thread_queue::create_thread: the run_now block no longer calls create_thread_object(thrd, data, lk)')
+    if 'new(td)task_description{std::move(data)' not in b[s1:]:
+        fail('thread_queue::create_thread: the staged path no longer stores the init data in a task_description')
+    _, abody = func(tq, r'\bstd::size_t\s+add_new\s*\(\s*std::int64_t\s+add_count\s*,\s*thread_queue\s*\*\s*addfrom\s*,\s*std::unique_lock',
+                    'thread_queue::add_new')
+    if 'threads::detail::thread_init_data&data=task->data;' not in nows(abody) or 'create_thread_object(thrd,data,lk);' not in nows(abody):
+        fail('thread_queue::add_new: no longer creates the thread object from the stored task->data')
+    # get_self_stacksize_enum(): class reported without a current pika thread
+    td = strip_comments(strip_pp(gen.read(TDCPP)))
+    _, gbody = func(td, r'execution::thread_stacksize\s+get_self_stacksize_enum\s*\(', 'get_self_stacksize_enum')
+    g = nows(gbody)
+    m = re.search(r'thrd_data\?thrd_data->get_stack_size_enum\(\):execution::thread_stacksize::(\w+);', g)
+    if not m or 'thread_data*thrd_data=get_self_id_data();' not in g:
+        fail('get_self_stacksize_enum: no longer `self ? self->get_stack_size_enum() : <class>`')
+    fallback = m.group(1)
+    en = nows(strip_comments(gen.read(ENUMHPP)))
+    me = re.search(r'enumclassthread_stacksize(?::[\w:]+)?\{([^}]*)\}', en)
+    if not me:
+        fail('thread_enums.hpp: enum class thread_stacksize not found')
+    en = me.group(1) + ','
+    for _ in range(3):
+        if fallback in ENUMS:
+            break
+        a = re.search(r'\b%s=(\w+),' % re.escape(fallback), en)
+        if not a:
+            fail('thread_stacksize::%s: cannot resolve the alias' % fallback)
+        fallback = a.group(1)
+    if fallback not in ENUMS:
+        fail('thread_stacksize: fallback class of get_self_stacksize_enum is %s' % fallback)
+    # thread_data::get_stack_size_enum() returns stacksize_enum_ (set from init_data.stacksize by constructor / rebind_base: td_ctor, td_rebind)
+    th = strip_comments(strip_pp(gen.read(TDHPP)))
+    if not re.search(r'get_stack_size_enum\s*\(\s*\)\s*const\s*(?:noexcept\s*)?\{\s*return\s+stacksize_enum_\s*;\s*\}', th):
+        fail('thread_data::get_stack_size_enum() no longer returns stacksize_enum_')
+    # scheduler_base::get_stack_size resolves a remaining `current` in the context of its caller
+    sb = nows(strip_comments(strip_pp(gen.read(SBHPP))))
+    if 'if(stacksize==execution::thread_stacksize::current){stacksize=threads::detail::get_self_stacksize_enum();}' not in sb:
+        fail('scheduler_base::get_stack_size no longer resolves thread_stacksize::current through get_self_stacksize_enum()')
+    return site, ENUMS[fallback]
+
+
 def coq_list(items, indent='  '):
     if not items:
         return '[]'
@@ -665,6 +747,7 @@ def gen_swapctx():
     members, td_ctor, td_rebind, td_calls = parse_thread_data()
     c_ctor, c_exit, c_rebind, exit_calls = parse_coroutine()
     create, recycle, enum_map = parse_heaps()
+    cur_site, no_self = parse_current_resolution()
     out = []
     out.append('(* GENERATED by tools/genmods/c12.py from $VERIF_REPO on every run of tools/check — do not edit. *)')
     out.append('From Coq Require Import ZArith List.')
@@ -704,10 +787,15 @@ def gen_swapctx():
     out.append('(* scheduler_base::get_stack_size: enum value -> size parameter *)')
     out.append('Definition enum_size : list (sclass * sclass) :=')
     out.append('  ' + coq_list(['(%s, %s)' % x for x in enum_map]) + '.')
+    out.append('(* thread_queue::create_thread: where thread_stacksize::current is replaced by the creating task\'s class, relative to')
+    out.append('   the `if (data.run_now)` split; get_self_stacksize_enum() without a current pika thread *)')
+    out.append('Definition current_resolution : cur_site := %s.' % cur_site)
+    out.append('Definition no_self_class : sclass := %s.' % no_self)
     out.append('')
     changed = gen.write_if_changed('GenSwapctx.v', '\n'.join(out))
     return {'file': 'coq/Gen/GenSwapctx.v', 'changed': changed, 'instructions': len(instrs), 'asm': raw,
             'context_size': lay['context_size'], 'cb_idx': lay['cb_idx'], 'funp_idx': lay['funp_idx'],
             'routines_called': lay['routines_called'],
             'td_ctor': len(td_ctor), 'td_rebind': len(td_rebind), 'coro_rebind': len(c_rebind),
-            'create_chain': create, 'recycle_chain': recycle, 'assumed_undefined': OPTIONAL_FEATURES}
+            'create_chain': create, 'recycle_chain': recycle, 'current_resolution': cur_site, 'no_self_class': no_self,
+            'assumed_undefined': OPTIONAL_FEATURES}
